@@ -466,6 +466,83 @@ func c06Corr(r *hx.Run, cs c06Case) {
 	walk(&doc, 1)
 }
 
+// c06Inject: the real InjectDiagnostics on random diagnostics (well-formed position ranges, any columns, sometimes no
+// positions at all) against Model/Inject: which lines are written, under which line each message stands, and whether
+// it panics (slices.Max of no lines)
+func c06Inject(r *hx.Run) {
+	rr := r.Rng
+	n := 1 + rr.Intn(9)
+	var content []string
+	for i := 0; i < n; i++ {
+		content = append(content, strings.Repeat("x", rr.Intn(12)))
+	}
+	nd := 1 + rr.Intn(3)
+	if rr.Intn(12) == 0 {
+		nd = 0
+	}
+	var ds []diags.Diagnostic
+	var jd []map[string]any
+	for i := 0; i < nd; i++ {
+		var prs diags.PositionRanges
+		jp := []map[string]int{}
+		np := rr.Intn(4)
+		if rr.Intn(3) == 0 {
+			np = 1
+		}
+		line := 1 + rr.Intn(n+1) // sometimes past the end of the content
+		for k := 0; k < np; k++ {
+			f := 1 + rr.Intn(8)
+			t := f + rr.Intn(5)
+			prs = append(prs, diags.PositionRange{Line: line, FirstColumn: f, LastColumn: t})
+			jp = append(jp, map[string]int{"l": line, "f": f, "t": t})
+			if rr.Intn(2) == 0 {
+				line += rr.Intn(3)
+			} else if rr.Intn(6) == 0 && line > 1 {
+				line--
+			}
+		}
+		first, last := rr.Intn(14)-2, rr.Intn(16)-2
+		ds = append(ds, diags.Diagnostic{Message: fmt.Sprintf("MSG%d!", i), Pos: prs, FirstColumn: first, LastColumn: last})
+		jd = append(jd, map[string]any{"prs": jp, "first": first, "last": last})
+	}
+	impl := func() (out string) {
+		defer func() {
+			if p := recover(); p != nil {
+				out = "PANIC"
+			}
+		}()
+		body := diags.InjectDiagnostics(strings.Join(content, "\n"), ds, output.None)
+		var parts []string
+		cur := -1
+		var msgs []string
+		flush := func() {
+			if cur >= 0 {
+				parts = append(parts, fmt.Sprintf("%d:%s", cur, strings.Join(msgs, ",")))
+			}
+		}
+		for _, l := range strings.Split(body, "\n") {
+			if i := strings.Index(l, " | "); i >= 0 {
+				if k, err := strconv.Atoi(strings.TrimSpace(l[:i])); err == nil {
+					flush()
+					cur, msgs = k, nil
+					continue
+				}
+				if strings.TrimSpace(l[:i]) == "" && strings.HasSuffix(l, "[...]") {
+					continue
+				}
+			}
+			if i := strings.Index(l, "MSG"); i >= 0 {
+				msgs = append(msgs, strings.TrimSuffix(l[i+3:], "!"))
+			}
+		}
+		flush()
+		return strings.Join(parts, ";")
+	}()
+	r.Count("inject:" + map[bool]string{true: "panic", false: "ok"}[impl == "PANIC"])
+	op, _ := json.Marshal(map[string]any{"n": n, "diags": jd})
+	r.Op("inject\t"+string(op), impl)
+}
+
 func runC06(r *hx.Run, replay string) {
 	if replay != "" {
 		b, err := os.ReadFile(replay)
@@ -487,5 +564,6 @@ func runC06(r *hx.Run, replay string) {
 		if i%3 == 0 {
 			c06Corr(r, cs)
 		}
+		c06Inject(r)
 	}
 }
